@@ -804,6 +804,7 @@ class Manager:
         # TODO: Refactor this method.
 
         value = None
+        resumed = False
         handling = self._currently_handling
         self._currently_handling = event
         try:
@@ -812,6 +813,7 @@ class Manager:
                 # Done here, next() will StopIteration anyway
                 self.unregisterTask((event, task, parent))
                 # We are in a callEvent
+                resumed = True
                 value = parent.send(value.value)
                 if isinstance(value, GeneratorType):
                     # We loose a yield but we gain one,
@@ -844,6 +846,7 @@ class Manager:
             elif isinstance(value, ExceptionWrapper):
                 self.unregisterTask((event, task, parent))
                 if parent:
+                    resumed = True
                     value = parent.throw(value.extract())
                     if value is not None:
                         value_generator = (val for val in (value,))
@@ -888,9 +891,10 @@ class Manager:
 
             self.fire(exception(*err, handler=None, fevent=event))
 
-            if parent is None:
-                # the failed generator handler is finished: account for it
-                event.waitingHandlers -= 1
+            if parent is None or resumed:
+                # the failed generator handler is finished (and so is the
+                # call()/wait() it was resumed from): account for them
+                event.waitingHandlers -= 2 if resumed else 1
                 if event.waitingHandlers == 0:
                     self._eventDone(event, err)
         finally:
